@@ -191,21 +191,21 @@ func (inst *VerifInstance) VerifPeerTick(id string) (ran bool, errStr string) {
 
 // VerifPeerInfo is the externally visible and the bookkeeping state of a peer; timestamps are relative to the virtual now.
 type VerifPeerInfo struct {
-	Status         int     `json:"status"`
-	LastError      string  `json:"last_error"`
-	HasData        bool    `json:"has_data"`
-	Idling         bool    `json:"idling"`
-	ErrorCount     int64   `json:"error_count"`
-	PeerAddr       string  `json:"peer_addr"`
-	LastOnlineAgo  float64 `json:"last_online_ago"`
-	LastUpdateAgo  float64 `json:"last_update_ago"`
-	LastQueryAgo   float64 `json:"last_query_ago"`
-	LastFullAgo    float64 `json:"last_full_ago"`
-	LastOnlineZero bool    `json:"last_online_zero"`
-	LastQueryZero  bool    `json:"last_query_zero"`
+	Status         int      `json:"status"`
+	LastError      string   `json:"last_error"`
+	HasData        bool     `json:"has_data"`
+	Idling         bool     `json:"idling"`
+	ErrorCount     int64    `json:"error_count"`
+	PeerAddr       string   `json:"peer_addr"`
+	LastOnlineAgo  float64  `json:"last_online_ago"`
+	LastUpdateAgo  float64  `json:"last_update_ago"`
+	LastQueryAgo   float64  `json:"last_query_ago"`
+	LastFullAgo    float64  `json:"last_full_ago"`
+	LastOnlineZero bool     `json:"last_online_zero"`
+	LastQueryZero  bool     `json:"last_query_zero"`
 	Flags          []string `json:"flags"`
-	ForceFull      bool    `json:"force_full"`
-	ProgramStart   int64   `json:"program_start"`
+	ForceFull      bool     `json:"force_full"`
+	ProgramStart   int64    `json:"program_start"`
 }
 
 // VerifPeerState reports the state of a peer.
